@@ -163,6 +163,11 @@ def linear_kalman(c, rec):
     t = 0.0
     for k, obs_specs in enumerate(c["steps"]):
         t += 60.0
+        if k:
+            # between steps the filter travels through the Ray object store and comes back as a copy with read-only arrays
+            from vf import raydouble
+
+            ukf = raydouble._loads(raydouble._dumps(ukf))
         ukf.predict(ScenarioTime(t))
         xb = f @ xk
         pb = f @ pk @ f.T + q
